@@ -657,6 +657,8 @@ func (s *Sim) enabled(recs []*parkRec) ([]event, time.Duration) {
 		switch r.kind {
 		case opYield, opDial:
 			ok = true
+		case opWait:
+			ok = *r.waitVar >= r.waitVal
 		case opAccept:
 			ok = r.lis.closed || r.lis.nback > 0
 		case opClose:
@@ -740,7 +742,7 @@ func (s *Sim) apply(r *parkRec) {
 	now := s.Now()
 	r.resN, r.resErr, r.resAgain = 0, nil, false
 	switch r.kind {
-	case opYield, opDial:
+	case opYield, opDial, opWait:
 	case opAccept:
 		l := r.lis
 		if l.nback > 0 {
